@@ -5870,6 +5870,12 @@ impl<'a> Tyck<'a> for TyEnvT<su::TermId> {
                     TyckError::SortMismatch,
                     std::panic::Location::caller(),
                 )?;
+                // The binder of a fixed point is a thunk of the fixed point itself: `Thk _`,
+                // not any other type application.
+                let binder_ty = {
+                    let thunk_app_hole = tycker.thk_hole(&self.info, self.inner);
+                    Lub::lub_k(binder_ty, thunk_app_hole, tycker)?
+                };
                 let (binder, binder_ty) = {
                     let ret_app_body_ty = match tycker.type_filled_k(&binder_ty)?.to_owned() {
                         | ss::Type::App(ret_app_body_ty) => ret_app_body_ty,
